@@ -5,6 +5,7 @@ package dns
 import (
 	"strings"
 	"testing"
+	"unicode/utf8"
 
 	"golang.org/x/net/idna"
 	"golang.org/x/text/unicode/norm"
@@ -14,7 +15,7 @@ import (
 )
 
 var c17dTokens = []string{
-	"a", "B", "k", "K", "0", "-", ".", "..", "@", "_", " ",
+	"a", "B", "k", "K", "0", "-", ".", "..", "@", "_", " ", "I", "i", "\u00c5", "\u212b",
 	"\u0301", "\u0307", "\u030c", "\u0130", "\u00df", "\u03c2", "\u03a3", "\u212a",
 	"\uff21", "\uff0e", "\u3002", "\u007f", "\u0080", "\u00e9", "e\u0301", "\xff", "\x00",
 	"xn--e1aybc", "XN--E1AYBC", "Xn--e1aybc", "xn--", "xn--a", "xn--bcher-kva",
@@ -64,6 +65,24 @@ func c17dRunAny(in c17dAny) (vs []ev.V) {
 		FQDN(s)
 		if !Equal(s, s) {
 			vs = append(vs, ev.Vf("dns.Equal:irreflexive", "dns.Equal(%q,%q)=false", s, s))
+		}
+	}
+	// Unicode-normalization variants of one domain have one key (metamorphic: NFC vs NFD spelling)
+	for _, s := range strs {
+		if !utf8.ValidString(s) {
+			continue
+		}
+		s1, s2 := norm.NFC.String(s), norm.NFD.String(s)
+		if s1 == s2 {
+			continue
+		}
+		k1, err1 := ForLookup(s1)
+		k2, err2 := ForLookup(s2)
+		if err1 != nil || err2 != nil {
+			continue // malformed input: byte-wise fallback, no law claimed
+		}
+		if k1 != k2 || !Equal(s1, s2) {
+			vs = append(vs, ev.Vf("dns.ForLookup:nfc-nfd-variants-differ", "dns.ForLookup(%q) = %q but dns.ForLookup(%q) = %q (NFC and NFD spellings of one domain); Equal = %v", s1, k1, s2, k2, Equal(s1, s2)))
 		}
 	}
 	for i := range strs {
